@@ -1,5 +1,6 @@
 """Helpers shared by the per-property rule modules."""
 from ..terms import fmt, subterms
+from ..terms import callee_is as _nm
 from ..ir import span_str
 
 SELF = ("param", 1)
@@ -257,10 +258,10 @@ def double_hashing_rules(ctx, rule="R08-double-hashing"):
         def is_base_hash(t, bh, o, iv):
             """finish() of a fresh hasher of `bh` that absorbed the IV and then the object"""
             try:
-                return (t[0] == "call" and t[1].endswith("finish") and len(t[2]) == 1
+                return (t[0] == "call" and _nm(t[1], "finish") and len(t[2]) == 1
                         and t[2][0][:2] == ("call", "absorb:hash") and t[2][0][2][1] == o
                         and t[2][0][2][0][:2] == ("call", "absorb:write_usize") and t[2][0][2][0][2][1] == iv
-                        and t[2][0][2][0][2][0][0] == "call" and t[2][0][2][0][2][0][1].endswith("build_hasher") and t[2][0][2][0][2][0][2] == (bh,))
+                        and t[2][0][2][0][2][0][0] == "call" and _nm(t[2][0][2][0][2][0][1], "build_hasher") and t[2][0][2][0][2][0][2] == (bh,))
             except (IndexError, TypeError):
                 return False
 
@@ -301,7 +302,7 @@ def double_hashing_rules(ctx, rule="R08-double-hashing"):
         r = f_term
         sf = f_where
         okf = False
-        if r[0] == "call" and r[1].endswith("collect") and r[2][0][0] == "map":
+        if r[0] == "call" and _nm(r[1], "collect") and r[2][0][0] == "map":
             rng = r[2][0][1]
             e = elem_of(r[2][0])
             mod = e[2][1] if (e[0] == "op" and e[1] == "Rem") else None
@@ -374,7 +375,7 @@ def elementwise_reset(ctx, fn, field):
         fills = [w for w in all_writes(ctx, fn) if self_field(w) == field and w["how"] == "call" and w.get("name") == "fill" and len(w["path"]) == 1 and len(w.get("args", [])) == 2]
         if len(fills) == 1:
             v = fills[0]["args"][1]
-            zero = v == const(0) or (v[0] == "call" and v[1].endswith("zero") and not v[2]) or v == const(False)
+            zero = v == const(0) or (v[0] == "call" and _nm(v[1], "zero") and not v[2]) or v == const(False)
             pd = fn.postdominators()
             return bool(zero and fills[0]["bb"] in pd.get(0, set()) | {0})
         return False
@@ -403,7 +404,7 @@ def elementwise_reset(ctx, fn, field):
     if len(ws) != 1:
         return False
     v = ws[0]["value"]
-    zero = v == const(0) or (v[0] == "call" and v[1].endswith("zero") and not v[2]) or v == const(False)
+    zero = v == const(0) or (v[0] == "call" and _nm(v[1], "zero") and not v[2]) or v == const(False)
     body = fn.natural_loop(heads[0])
     every_iter = all(fn.dominates(ws[0]["bb"], b) for b, h in fn.back_edges())
     its = [w for w in all_writes(ctx, fn) if self_field(w) == field and w["how"] == "borrow" and w.get("name") in ("iter_mut", "into_iter")]
@@ -441,7 +442,7 @@ def cellwise_merge(ctx, m, field):
     if whole and v[0] == "op" and v[1] == "BitOr":
         ok = sorted(map(repr, v[2])) == sorted(both)
         return {"form": "bitor" if ok else None, "elem": v, "why": fmt(v)}
-    if whole and v[0] == "call" and v[1].endswith("collect"):
+    if whole and v[0] == "call" and _nm(v[1], "collect"):
         e = elem_of(v[2][0])
         ok = e[0] == "op" and len(e[2]) == 2 and {repr(e[2][0]), repr(e[2][1])} == cells
         zs = [x for x in subterms(v) if x[0] == "zip"]
